@@ -50,7 +50,7 @@ RULE = ("header: 0-6 pragma lines from the pragma grammar (version/annotation of
         "invalid field, header a Strict writer refuses, rows out of the declared order, Lenient / default "
         "stringency) / adversarial (CR or LF inside a field or pragma value, column names the format cannot carry); "
         "history scenarios on 30% of the cases each: the output paths already hold an earlier MAF and the second write "
-        "goes to the same path (overwrite), a second writer alive at the same time and fed alternately / abandoned unclosed (sibling), floats needing 16-17 significant digits in 30% of the float cells, cells rendered once with an earlier text and then edited in place by value "
+        "goes to the same path (overwrite), a MafRecord() without columns handed first to a scheme-less writer; a header object used under another annotation.spec then edited in place; scheme-less layouts of 257/258/300/1000 columns; records built with the column constructors (canonical values, at most one known non-canonical value: str for int, '' for None, 0 for None, [Null] for []) (api); a second writer alive at the same time and fed alternately / abandoned unclosed (sibling), floats needing 16-17 significant digits in 30% of the float cells, cells rendered once with an earlier text and then edited in place by value "
         "assignment or column replacement before the write (stale); all three channels per case; non-trivial = the writer accepted everything and at least one record or one "
         "pragma was written; distinct by hash of the case")
 ASSUMPTIONS = [
@@ -65,7 +65,10 @@ ASSUMPTIONS = [
     "iterates '\\n'-terminated lines; io.StringIO does not translate; text contains no lone surrogates",
     "sort-key construction and comparison as in property C08/C09 (the extracted run uses the reader cluster's "
     "concrete key); the scheme registry is read from all_schemes() of the imported library",
-    "records with no columns at all are outside the property (a scheme-less writer repeats the column line for them)",
+    "api-built stream: column values constructed directly (not parsed) are not expressible in the extracted run, whose "
+    "records come from MafRecord.from_line; those cases are judged by the oracle only (skip_compare). In the Coq "
+    "theorems they are the records outside `typed_by` (a stored value must be one its class builds): "
+    "C02_api_built_value_refuted shows the premise is needed",
 ]
 SORTABLE = ("Coordinate", "BarcodesAndCoordinate")
 HASH_SIG = "scheme-less-first-column-name-starts-with-hash"
@@ -1101,7 +1104,27 @@ def skip_compare(case):
     return bool(case.get("api"))
 
 
+def _schemeless_valid_by_construction(case):
+    """scheme-less, distinct carriable names, every row of the right length with fields free of TAB/CR/LF, built by
+    parsing: there is nothing a writer or parser could object to"""
+    if case["layout"] or case.get("empty_first") or case.get("api") or not case["names"]:
+        return False
+    names = case["names"]
+    if len(set(names)) != len(names) or names[0].startswith("#") or any(c in n for n in names for c in "\t\r\n"):
+        return False
+    rows = case["rows"]
+    if any(len(r) != len(names) or any(c in f for f in r for c in "\t\r\n") for r in rows):
+        return False
+    # a trailing CR/LF-free last field is required by the line framing; stale cells must build too
+    return all(not any(c in e[2] for c in "\t\r\n") for e in case.get("stale", []))
+
+
 def oracle(case, obs):
+    if _schemeless_valid_by_construction(case) and obs["plain"]["first"]["init"][0] == "ok":
+        bad = [e for e in obs["orig"]["parse_errs"] if e] + \
+              [a for a in obs["plain"]["first"]["adds"] if a["res"][0] != "ok" or a["res"][1]]
+        if bad:
+            return ["scheme-less-valid-record-has-validation-errors plain"]
     if not premise(case, obs):
         return []
     out = []
@@ -1117,6 +1140,7 @@ def oracle(case, obs):
             out.append("channel-sessions-differ %s" % ch)
     for ch in ("plain", "gz", "handle"):
         o = obs[ch]
+        folded = False
         if o["text"] is None:
             out.append("nothing-written %s" % ch)
             continue
@@ -1136,7 +1160,6 @@ def oracle(case, obs):
         if len(rd["recs"]) != len(texts):
             out.append("record-count %d-for-%d %s" % (len(rd["recs"]), len(texts), ch))
         else:
-            folded = False
             for i, (r, t) in enumerate(zip(rd["recs"], texts)):
                 rt = None if any(s is None or s[2] is None for s in r["slots"]) else "\t".join(s[2] for s in r["slots"])
                 if rt != t:
@@ -1157,7 +1180,7 @@ def oracle(case, obs):
         if lines[-1] != "" or lines[:-1] != pragmas + (["\t".join(names)] if (case["rows"] or case["layout"]) else []) + texts:
             out.append("file-is-not-header-columns-records %s" % ch)
         if o["second"] is None or o["second"]["text"] != o["text"]:
-            if not (case.get("api") and rd["init"][0] == "ok" and len(rd["recs"]) == len(texts) and locals().get("folded")):
+            if not (case.get("api") and folded):
                 out.append("second-write-differs %s" % ch)
     return out
 
